@@ -9,6 +9,8 @@ import (
 	"strings"
 
 	"golang.org/x/tools/go/ssa"
+
+	"verif/engine/sym"
 )
 
 type funcInfo struct {
@@ -492,10 +494,29 @@ func (it *Interp) allocSize(n Int, signed bool, site string) int {
 		it.oblige(it.fromBTerm(it.ctx.Cmp("bvsge", n.T, it.ctx.BV(w, 0))), "alloc-nonneg", "alloc", "negative make size: "+site)
 	}
 	if w >= 64 || uint64(it.allocBudg) < uint64(1)<<uint(w) {
+		// ask for a really large size first, so that the native replay of a counterexample fails for certain
+		huge := uint64(1) << 40
+		if (w >= 64 || huge < uint64(1)<<uint(w)) && huge > uint64(it.allocBudg) && it.label("alloc-budget", "alloc").Cex == nil {
+			it.sol.SyncPC(it.pc)
+			if r := it.sol.CheckWith(it.ctx.Cmp("bvugt", n.T, it.ctx.BV(w, huge))); r == sym.Sat {
+				ls := it.label("alloc-budget", "alloc")
+				ls.Checked++
+				ls.Cex = &Cex{Label: "alloc-budget", Kind: "alloc", Detail: fmt.Sprintf("allocation size governed by unchecked input can exceed 2^40 elements (%s)", site), Vector: it.modelVector(), Where: it.where(), PathNo: it.pathNo}
+			}
+			it.sol.ReleaseModel()
+		}
 		it.oblige(it.fromBTerm(it.ctx.Cmp("bvule", n.T, it.ctx.BV(w, uint64(it.allocBudg)))), "alloc-budget", "alloc",
 			fmt.Sprintf("allocation size governed by unchecked input can exceed %d elements (%s)", it.allocBudg, site))
 	}
-	return int(it.concretize(n, 40, "allocation size ("+site+")"))
+	v := it.concretize(n, 40, "allocation size ("+site+")")
+	if v > 1<<22 {
+		// within the harness' budget but larger than the engine wants to model: the path is not followed further
+		if it.sizeSampling {
+			it.res.Bounds["allocations_above_4Mi_elements_not_followed"] = 1
+			it.endPath("allocation larger than the engine models", false)
+		}
+	}
+	return int(v)
 }
 
 func (it *Interp) indexAddr(fr *frameState, x *ssa.IndexAddr) Val {
